@@ -620,6 +620,8 @@ func scenarios(tier string) []*explore.Scenario {
 			}
 			add(scen{Proto: proto, Steps: []step{{Kind: "init"}, {Kind: bad, ID: 1}, {Kind: "start", ID: 1}}, Script: "emit-end", InitFunc: "none"}, &one)
 			add(scen{Proto: proto, Steps: []step{{Kind: "init"}, {Kind: "start", ID: 1}, {Kind: bad, ID: 2}}, Script: "emit-end", InitFunc: "none"}, &one)
+			// the id of a start that could not be executed is free again once its answer was seen
+			add(scen{Proto: proto, Steps: []step{{Kind: "init"}, {Kind: bad, ID: 1}, {Kind: "await-terminated", ID: 1}, {Kind: "start", ID: 1}}, Script: "emit-end", InitFunc: "none"}, &one)
 		}
 		// id re-use right after a stop: the first instance may still be tearing down
 		for _, script := range []string{"block", "emit-end"} {
